@@ -1,5 +1,6 @@
 import Bardolph.Model.Gen
 import Bardolph.Model.Sem
+import Bardolph.Model.ExprParse
 import Bardolph.Driver.Vm
 /-!
 S-expression reader for ASTs sent by `harness/progs.py` (`to_sexp`) and the `gen.*` driver
@@ -340,9 +341,27 @@ def loadFullCmd (args : List String) : String :=
   ",".intercalate (img.routines.map fun (n, a) => encode (escP n) ++ "=" ++ toString a) ++ "\x1e" ++
     "\x1f".intercalate (img.code.toList.map fun i => encode (encInstrWire i))
 
+/-- `expr.parse <tok>…` with tokens `n:<value>` (number literal), `v:<name>`, `(`, `)` or an
+operator symbol → the postfix code in wire form, or `reject` -/
+def exprParseCmd (args : List String) : String :=
+  let toks : List ExprParse.Tok := args.map fun a =>
+    let a := decode a
+    if a == "(" then .lparen
+    else if a == ")" then .rparen
+    else if a.startsWith "n:" then
+      match valOf (a.drop 2).toString with
+      | some v => .atom [Gen.pushLit v]
+      | none => .atom [.bad a]
+    else if a.startsWith "v:" then .atom [.push (.var (a.drop 2).toString)]
+    else .op a
+  match ExprParse.parse toks with
+  | some code => "\x1f".intercalate (code.map fun i => encode (encInstrWire i))
+  | none => "reject"
+
 def handle (cmd : String) (args : List String) : Option String :=
   match cmd with
   | "gen.prog" => some (genCmd args)
+  | "expr.parse" => some (exprParseCmd args)
   | "vm.loadfull" => some (loadFullCmd args)
   | "sem.run" => some (semCmd args)
   | _ => none
